@@ -165,8 +165,13 @@ def parse_ctr(path):
                 b.file, b.line = path, head['line']
                 b.env = env
                 for ln2, k2, r2 in head['clauses']:
+                    prefix = ''
+                    if k2 == 'loop':
+                        mm = re.match(r'(\d+\s+\w+\s+)(.*)$', r2)
+                        if mm:
+                            prefix, r2 = mm.group(1), mm.group(2)
                     for env2, r3 in _replicate(r2, env):
-                        add_clause(b, k2, _subst(r3, env2), path, ln2)
+                        add_clause(b, k2, prefix + _subst(r3, env2), path, ln2)
                 blocks.append(b)
             head = None
             continue
@@ -508,8 +513,9 @@ def portfolio(gb, solvers, extra, timeout):
                              stdout=f, stderr=subprocess.PIPE, env=solver_env(s), start_new_session=True)
         procs.append((s, p, f, outp))
     outs, winner = [], None
+    winner_abort = False
     pending = list(procs)
-    while pending and winner is None:
+    while pending and winner is None and not winner_abort:
         for item in list(pending):
             s, p, f, outp = item
             if p.poll() is not None:
@@ -519,15 +525,22 @@ def portfolio(gb, solvers, extra, timeout):
                 txt = open(outp).read()
                 res, msgs = parse_cbmc_json(txt)
                 if res is None:
-                    err = p.stderr.read().decode(errors='replace')[-500:] if p.stderr else ''
-                    outs.append({'solver': s, 'status': 'error', 'time': dt, 'msg': (msgs or '') + err, 'rc': p.returncode})
+                    err_full = p.stderr.read().decode(errors='replace') if p.stderr else ''
+                    err = err_full[-500:]
+                    # cbmc aborts in pointer_logic.cpp while *decoding a model* of a harness that holds rational data
+                    # behind dfcc pointers (DESIGN R8): the solver answered sat
+                    abort_sat = 'pointer_logic.cpp' in txt or 'pointer_logic.cpp' in err_full
+                    outs.append({'solver': s, 'status': 'abort-sat' if abort_sat else 'error', 'time': dt,
+                                 'msg': ('pointer_logic abort after sat; ' if abort_sat else '') + (msgs or '') + err, 'rc': p.returncode})
+                    if abort_sat:
+                        winner_abort = True
                 else:
                     o = {'solver': s, 'status': 'done', 'time': dt, 'results': res, 'msg': msgs, 'rc': p.returncode}
                     outs.append(o)
                     if all(x.get('status') in ('SUCCESS', 'FAILURE') for x in res):
                         winner = o
                         break
-        if winner is None and pending:
+        if winner is None and pending and not winner_abort:
             if time.time() - t0 > timeout:
                 break
             time.sleep(0.05)
@@ -625,6 +638,9 @@ def decide(gb, b, tmo):
                             merged.setdefault(x['property'], dict(x, solver=cand['solver']))
             for k, v in got.items():
                 merged[k] = v
+            if len(plist) == 1 and plist[0] not in got and any(c['status'] == 'abort-sat' for c in o):
+                merged[plist[0]] = {'property': plist[0], 'description': 'cbmc aborted while decoding the counter-model of this single obligation (sat)',
+                                    'status': 'FAILURE', 'sourceLocation': {}, 'solver': [c['solver'] for c in o if c['status'] == 'abort-sat'][0]}
             for p in plist:
                 if p not in merged:
                     merged[p] = {'property': p, 'description': 'no answer (timeout or solver error)', 'status': 'UNKNOWN',
@@ -635,7 +651,7 @@ def decide(gb, b, tmo):
 def refute_small(r, b, cfile, hname, cmd, ids, tmo):
     base = r.base
     defs = ['-D' + d for d in getattr(b, 'defines', [])]
-    rc, out, err, dt = sh(['goto-cc', '--function', hname, '-DBS_CANARY()=', '-DBS_SMALLGRID=1'] + defs + ['-o', base + '.s.gb', cfile], 120)
+    rc, out, err, dt = sh(['goto-cc', '--function', hname, '-DBS_CANARY()=', '-DBS_SMALLGRID=1', '-DBS_CAP=8UL'] + defs + ['-o', base + '.s.gb', cfile], 120)
     if rc != 0:
         return set()
     ctext = open(cfile).read()
@@ -782,7 +798,7 @@ def run_block(r, blocks, keep=False, verbose=False):
         for x in r.obligations:
             if x['id'] in rf:
                 x['status'] = 'FAILURE'
-                x['refuted_in'] = 'instance with grids of at most 4 points (quantifier-free)'
+                x['refuted_in'] = 'quantifier-free instance: every vector capped at 8 elements'
         bad = [x for x in r.obligations if x['status'] == 'FAILURE']
         und = [x for x in r.obligations if x['status'] not in ('SUCCESS', 'FAILURE')]
     if not r.obligations:
@@ -799,7 +815,7 @@ def run_block(r, blocks, keep=False, verbose=False):
     if r.status == 'proved':
         rc, out, err, dt = sh(['goto-cc', '--function', hname,
                                '-DBS_CANARY()=__CPROVER_assert(0, "[canary] end of harness reachable")',
-                               '-DBS_SMALLGRID=1'] + defs + ['-o', base + '.c.gb', cfile], 120)
+                               '-DBS_SMALLGRID=1', '-DBS_CAP=8UL'] + defs + ['-o', base + '.c.gb', cfile], 120)
         try:
             src_gb2, _ = prepare_loops(base + '.c.gb', base + '.cu.gb', ctext, cfile, b)
         except Undecided:
@@ -821,8 +837,7 @@ def run_block(r, blocks, keep=False, verbose=False):
                 r.status, r.reason = 'undecided', 'vacuous: the end of the harness is unreachable (contradictory requires?)'
             else:
                 # cbmc may abort while decoding a model (DESIGN R8): an abort after "sat" still means reachable
-                errs = ' '.join(x.get('msg', '') for x in co)
-                r.canary = 'reachable(abort)' if 'pointer_logic' in errs else 'unknown'
+                r.canary = 'reachable(abort)' if any(x['status'] == 'abort-sat' for x in co) else 'unknown'
                 if r.canary == 'unknown':
                     r.status, r.reason = 'undecided', 'canary undecided'
     r.time = time.time() - t0
